@@ -101,10 +101,14 @@ Proof.
   assert (B1 : PREFILL_SLICE <= MIN_CHUNK_MIN_SIZE) by (apply N.leb_le; vm_compute; reflexivity).
   assert (B2 : BUF_SIZE - 1 <= MIN_CHUNK_MIN_SIZE) by (apply N.leb_le; vm_compute; reflexivity).
   assert (B3 : 1 <= MIN_CHUNK_MIN_SIZE) by (apply N.leb_le; vm_compute; reflexivity).
-  apply negb_false_iff in H0.
+  (* the power-of-two test, whichever way the source writes it
+     (`(cs & (cs - 1)) != 0` or `!cs.is_power_of_two()`) *)
+  assert (L : (N.land avg (avg - 1) =? 0) = true).
+  { destruct (N.land avg (avg - 1) =? 0) eqn:E; [reflexivity|].
+    rewrite ?andb_false_r in H0. cbn in H0. discriminate. }
   apply N.ltb_ge in H1, H2, H3.
-  unfold params_ok, pow2. cbn [c_avg c_min c_max]. rewrite H0.
-  repeat (apply andb_true_intro; split); try apply N.leb_le; try apply N.ltb_lt; lia.
+  unfold params_ok, pow2. cbn [c_avg c_min c_max]. rewrite L.
+  repeat (apply andb_true_intro; split); try apply N.leb_le; try apply N.ltb_lt; try reflexivity; lia.
 Qed.
 
 Lemma accepted_fixed_size_pos size : fixed_accepts size = true -> 0 < size.
